@@ -46,6 +46,70 @@ def run(ctx: RuleContext):
     ctx.sub(check_template_hygiene, ctx, r)
     ctx.sub(check_param_kinds, ctx, r, "C07.6")
     ctx.sub(check_coroutine_coverage, ctx, r)
+    ctx.sub(check_exception_transparency, ctx, r)
+
+
+# ------------------------------------------------------------------------ C07.8
+def check_exception_transparency(ctx, r):
+    """An exception raised by the wrapped function comes back as that very exception: a handler around
+    `fn(*args, **kwargs)` ends in a bare `raise`, and whatever else it does (attaching a note, reporting
+    bindings) cannot itself raise out of the handler -- otherwise the helper's error replaces the user's
+    (e.g. `e.add_note(...)` on an exception class that forbids setting attributes)."""
+    m = ctx.model
+    w = r.wrappers()
+    impls = [impl for _, impl in new_style_wrappers(m, r)]
+    n = 0
+    storage_roles = set(r.CANON)
+    for f in list(w["wraps"]) + impls:
+        for t in [x for x in ast.walk(f.node) if isinstance(x, ast.Try)]:
+            own = [c for b_ in t.body for c in ast.walk(b_) if isinstance(c, ast.Call) and isinstance(c.func, ast.Name) and c.func.id == "fn"]
+            if not own:
+                continue
+            for hd in t.handlers:
+                n += 1
+                ctx.saw(f)
+                names = [norm(x) for x in (hd.type.elts if isinstance(hd.type, ast.Tuple) else [hd.type])] if hd.type is not None else ["<bare>"]
+                # (a) the handler re-raises the exception it caught on every path
+                last = hd.body[-1] if hd.body else None
+                reraises = isinstance(last, ast.Raise) and last.exc is None
+                others = [x for x in ast.walk(hd) if isinstance(x, ast.Raise) and x.exc is not None
+                          and not (isinstance(x.exc, ast.Name) and x.exc.id == hd.name and x.cause is None)]
+                # raises inside nested defs / inner try-blocks that are caught again do not count
+                def swallowed(node):
+                    for inner in ast.walk(hd):
+                        if isinstance(inner, ast.Try) and any(node is y for b_ in inner.body for y in ast.walk(b_)):
+                            for ih in inner.handlers:
+                                inames = [norm(x) for x in (ih.type.elts if isinstance(ih.type, ast.Tuple) else [ih.type])] if ih.type is not None else ["<bare>"]
+                                if any(nm in ("Exception", "BaseException", "<bare>") for nm in inames) and not any(isinstance(y, ast.Raise) for y in ast.walk(ih)):
+                                    return True
+                    return False
+
+                others = [x for x in others if not swallowed(x)]
+                if others:
+                    ctx.bad("C07.8", f, others[0], f"the handler `except {', '.join(names)}` around fn(*args, **kwargs) raises `{short(others[0], 50)}`: the caller does not get "
+                            "the exception the wrapped function raised")
+                    continue
+                if not reraises:
+                    ctx.bad("C07.8", f, hd, f"the handler `except {', '.join(names)}` around fn(*args, **kwargs) does not end in a bare `raise`: the wrapped function's exception "
+                            "is swallowed or replaced")
+                    continue
+                # (b) nothing else in the handler can raise out of it
+                loose = []
+                for c in [c for x in hd.body for c in ast.walk(x) if isinstance(c, ast.Call)]:
+                    if r.role_of_call(f, c) in storage_roles and r.role_of_call(f, c) in ("pop_shape_memo", "get_shape_memo"):
+                        continue
+                    if isinstance(c.func, ast.Name) and c.func.id in ("isinstance", "type", "id", "len"):
+                        continue
+                    if not swallowed(c):
+                        loose.append(c)
+                if loose:
+                    ctx.bad("C07.8", f, loose[0], f"`{short(loose[0], 60)}` runs in the handler around fn(*args, **kwargs) without protection: if it raises (e.g. add_note on an "
+                            "exception class that forbids setting attributes, a failing __repr__ while formatting), its error replaces the exception raised by the wrapped function",
+                            construct=f"unprotected call in handler around fn: {short(loose[0], 60)}")
+                else:
+                    ctx.ok("C07.8", f.qualname, f"handler `except {', '.join(names)}` around fn(*args, **kwargs): re-raises; everything else it does is contained")
+    ctx.counters["handlers_around_fn"] = n
+    ctx.floor("C07.8", "handlers_around_fn", 1)
 
 
 def checker_vars(m, jt: FuncInfo) -> dict:
